@@ -30,6 +30,9 @@ type c18RealCase struct {
 	Speak      bool   `json:"speak"`             // dialers send a new-session envelope
 	Overlap    bool   `json:"overlap,omitempty"` // with cycles > 1: the next serve call starts right after Close returned, not after the previous serve call returned
 	Cycles     int    `json:"cycles,omitempty"`  // > 1: the same Server value is served and closed that many times (same peers each time)
+	// WSRaw (ws only): the peers do not get as far as a WebSocket connection - silent (connected, nothing sent) | half (an upgrade
+	// request that stops before its end) | refused (a plain HTTP request, which is answered and kept alive)
+	WSRaw string `json:"wsRaw,omitempty"`
 }
 
 type c18RealObs struct {
@@ -117,7 +120,7 @@ func runC18Real(c *c18RealCase) *c18RealObs {
 			go func(i int) {
 				defer wg.Done()
 				time.Sleep(time.Until(start.Add(time.Duration(c.DialAtUs[i]) * time.Microsecond)))
-				if c.Kind == "ws" {
+				if c.Kind == "ws" && c.WSRaw == "" {
 					d := websocket.Dialer{Subprotocols: []string{"lime"}, HandshakeTimeout: 2 * time.Second}
 					wc, _, err := d.Dial(fmt.Sprintf("ws://127.0.0.1:%d", port), nil)
 					if err != nil {
@@ -153,13 +156,26 @@ func runC18Real(c *c18RealCase) *c18RealObs {
 				mu.Lock()
 				obs.Connected++
 				mu.Unlock()
-				if c.Speak {
+				switch {
+				case c.Kind == "ws" && c.WSRaw == "half":
+					_, _ = cn.Write([]byte("GET / HTTP/1.1\r\nHost: 127.0.0.1\r\nUpgrade: websocket\r\nConnection: Upgrade\r\n"))
+				case c.Kind == "ws" && c.WSRaw == "refused":
+					_, _ = cn.Write([]byte("GET / HTTP/1.1\r\nHost: 127.0.0.1\r\n\r\n"))
+				case c.Kind == "ws":
+				case c.Speak:
 					_, _ = cn.Write([]byte(`{"state":"new"}` + "\n"))
 				}
 				// a silent peer in the middle of its handshake is let go when the server's blocked Receive notices the cancellation: one I/O poll (5 s)
 				_ = cn.SetReadDeadline(time.Now().Add(8 * time.Second))
 				buf := make([]byte, 512)
 				n, err := cn.Read(buf)
+				if c.Kind == "ws" && c.WSRaw == "refused" && n > 0 {
+					// answered (with a refusal) and kept alive by the listener's HTTP server: what counts is the end
+					for err == nil {
+						n, err = cn.Read(buf)
+					}
+					n = 0
+				}
 				mu.Lock()
 				defer mu.Unlock()
 				var ne net.Error
@@ -210,6 +226,9 @@ func runC18Real(c *c18RealCase) *c18RealObs {
 
 func judgeC18Real(c *c18RealCase, obs *c18RealObs, o *Outcome) {
 	o.Class("real-listener=" + c.Kind)
+	if c.WSRaw != "" {
+		o.Class("ws-peers-short-of-an-upgrade=" + c.WSRaw)
+	}
 	o.Class(fmt.Sprintf("connBuffer=%d", c.ConnBuffer))
 	if c.Cycles > 1 {
 		o.Class("served-again-after-close")
@@ -259,6 +278,9 @@ func TestC18RealAccept(t *testing.T) {
 			c.Cycles = rapid.IntRange(2, 3).Draw(rt, "cycles")
 			c.Overlap = rapid.Bool().Draw(rt, "overlap")
 		}
+		if c.Kind == "ws" {
+			c.WSRaw = rapid.SampledFrom([]string{"", "", "silent", "half", "refused"}).Draw(rt, "wsRaw")
+		}
 		c.CloseAtUs = rapid.IntRange(200, 6000).Draw(rt, "closeAt")
 		// half of the cases: everybody dials within a few hundred microseconds before the closing (the queues are full then)
 		burst := rapid.Bool().Draw(rt, "burst")
@@ -273,6 +295,25 @@ func TestC18RealAccept(t *testing.T) {
 		judgeC18Real(c, runC18Real(c), o)
 		rec.Check(rt, c, o)
 	})
+}
+
+// TestC18WSRaw: a WebSocket listener is closed while peers are connected that have not got as far as an upgrade (silent, in the
+// middle of their request, or refused and kept alive): they belong to the listener's HTTP server, and they are let go with it.
+func TestC18WSRaw(t *testing.T) {
+	rec := NewRecorder("C18", "TestC18WSRaw")
+	defer rec.Finish(t)
+	for _, raw := range []string{"silent", "half", "refused"} {
+		for _, closeAt := range []int{30000, 150000} {
+			for _, cycles := range []int{1, 2} {
+				c := &c18RealCase{Kind: "ws", ConnBuffer: 4, Backlog: 4, Dialers: 3, DialAtUs: []int{0, 1000, closeAt - 2000}, CloseAtUs: closeAt, WSRaw: raw, Cycles: cycles}
+				o := &Outcome{}
+				rec.Journal(c)
+				judgeC18Real(c, runC18Real(c), o)
+				rec.Eval(c, o)
+			}
+		}
+	}
+	rec.Note("exhaustive", "true")
 }
 
 // TestC18ListenerRestart: the library's listeners are started and closed again and again, as fast as possible (a Server that
